@@ -57,7 +57,10 @@ MkDoc(specs, chars) ==
         tb == [b \in 1..nb |-> mkBlock(b)]
         labels == Uniq(Flatten([b \in 1..nb |-> Flatten([i \in 1..Len(tb[b].stmts) |-> tb[b].stmts[i].tree.lf])]), {})
         taxa == IF labels = <<>> THEN <<"a", "b", "c">> ELSE labels
-        cb == [kind |-> "chars", title |-> "cm1", rows |-> [j \in 1..Len(taxa) |-> IF j % 2 = 1 THEN "ACGT" ELSE "A-GT"]]
+        \* one matrix row per taxon; "A" is the case variant of "a" (one taxon unless labels are case sensitive),
+        \* a matrix with a row for each would not be a valid document
+        mt == SelectSeq(taxa, LAMBDA x : x # "A")
+        cb == [kind |-> "chars", title |-> "cm1", rows |-> [j \in 1..Len(mt) |-> [lab |-> mt[j], seq |-> IF j % 2 = 1 THEN "ACGT" ELSE "A-GT"]]]
     IN [taxa |-> taxa,
         blocks |-> CASE chars = 0 -> tb [] chars = 1 -> <<cb>> \o tb [] chars = 2 -> tb \o <<cb>>]
 
